@@ -222,6 +222,7 @@ fn run_case(f: &Fault, pool: &[Decl], c: &CaseSpec) -> Outcome {
 fn run_case_named(f: &Fault, pool: &[Decl], c: &CaseSpec, policy: usize) -> Outcome {
     let files = texts_of(f, pool, c);
     let names: Vec<String> = file_names(policy, files.len());
+    let _w = crate::util::watch::enter(&files.join("\n(* next file *)\n"));
     let r = crate::util::catch(|| {
         let mut p = FileBackedProject::new();
         for (n, t) in names.iter().zip(files.iter()) {
